@@ -328,7 +328,14 @@ SolClass(c) ==
       positive == /\ (c.given \in {"cq", "ct"} => \A i \in DOMAIN c.solutes : IsPos(inp.conc[i]) /\ IsPos(Measure(x, c.du[i])))
                   /\ (c.given \in {"cq", "qt"} => \A i \in DOMAIN c.solutes : IsPos(inp.qty[i]))
                   /\ (c.given \in {"ct", "qt"} => IsPos(inp.total))
-  IN  IF ~nameable \/ ~positive THEN "ill_posed"      \* every stated number is positive, as a user would write it
+      \* a solute stated as ZERO ('0 g', '0 M' - nothing negative): no mixture with all amounts positive meets it
+      statedZero == /\ \E i \in DOMAIN c.xs : IsZero(c.xs[i])
+                    /\ \A i \in DOMAIN c.xs : ~IsNeg(c.xs[i])
+                    /\ IsPos(c.xsolv) /\ c.skew = One
+                    /\ \A i \in DOMAIN c.solutes : IsPos(Measure(x, c.du[i]))
+  IN  IF ~nameable THEN "ill_posed"
+      ELSE IF statedZero THEN "nonpositive"
+      ELSE IF ~positive THEN "ill_posed"      \* otherwise every stated number is positive, as a user would write it
       ELSE IF c.skew # One THEN (IF Len(c.solutes) >= 2 /\ c.given = "cq" THEN "inconsistent" ELSE "ill_posed")
       ELSE IF ~IsPos(c.xsolv) \/ \E i \in DOMAIN c.xs : ~IsPos(c.xs[i]) THEN "nonpositive"
       ELSE IF SolvIsVessel(c) /\ Lt(Moles(ves[c.solvent].w[1].c), c.xsolv) THEN "overdraw"
